@@ -20,9 +20,12 @@ package packet
 //@ func (VarInt).WriteTo(v; w) (n, err)
 //@   let wk = sink(w)
 //@   let l0 = old(Wlen(wk))
+//@   ensures all(k, 0, l0, Wout(wk, k) == old(Wout(wk, k)))                         [@frame]
 //@   ensures err == nil ==> n == leb32_len(uint32(v)) && Wlen(wk) == l0 + n         [@count]
 //@   ensures err == nil ==> all(k, 0, 5, k < n ==> Wout(wk, l0+k) == leb32_byte(uint32(v), k))   [@value]
 //@   ensures Wfail(wk) ==> err != nil                                                [@errprop]
+//@   ensures !Wfail(wk) ==> err == nil                                               [@errprop]
+//@   ensures Wlen(wk) >= l0 && Wlen(wk) <= l0 + 5                                    [@count]
 //@   modifies sink(w)                                                                [@frame]
 
 //@ func (*VarInt).ReadFrom(v; r) (n, err)
@@ -51,9 +54,12 @@ package packet
 //@ func (VarLong).WriteTo(v; w) (n, err)
 //@   let wk = sink(w)
 //@   let l0 = old(Wlen(wk))
+//@   ensures all(k, 0, l0, Wout(wk, k) == old(Wout(wk, k)))                         [@frame]
 //@   ensures err == nil ==> n == leb64_len(uint64(v)) && Wlen(wk) == l0 + n         [@count]
 //@   ensures err == nil ==> all(k, 0, 10, k < n ==> Wout(wk, l0+k) == leb64_byte(uint64(v), k))   [@value]
 //@   ensures Wfail(wk) ==> err != nil                                                [@errprop]
+//@   ensures !Wfail(wk) ==> err == nil                                               [@errprop]
+//@   ensures Wlen(wk) >= l0 && Wlen(wk) <= l0 + 10                                   [@count]
 //@   modifies sink(w)                                                                [@frame]
 
 //@ func (*VarLong).ReadFrom(v; r) (n, err)
@@ -88,6 +94,7 @@ package packet
 //@ func (Short).WriteTo(v; w) (n, err)
 //@   let wk = sink(w)
 //@   let l0 = old(Wlen(wk))
+//@   ensures all(k, 0, l0, Wout(wk, k) == old(Wout(wk, k)))                         [@frame]
 //@   ensures Wlen(wk) == l0 + n && 0 <= n && n <= 2                                 [@count]
 //@   ensures err == nil ==> n == 2                                                  [@count]
 //@   ensures all(k, 0, 2, k < n ==> Wout(wk, l0+k) == be16_byte(uint16(v), k))                       [@value]
@@ -107,6 +114,7 @@ package packet
 //@ func (UnsignedShort).WriteTo(v; w) (n, err)
 //@   let wk = sink(w)
 //@   let l0 = old(Wlen(wk))
+//@   ensures all(k, 0, l0, Wout(wk, k) == old(Wout(wk, k)))                         [@frame]
 //@   ensures Wlen(wk) == l0 + n && 0 <= n && n <= 2                                 [@count]
 //@   ensures err == nil ==> n == 2                                                  [@count]
 //@   ensures all(k, 0, 2, k < n ==> Wout(wk, l0+k) == be16_byte(uint16(v), k))                       [@value]
@@ -126,6 +134,7 @@ package packet
 //@ func (Int).WriteTo(v; w) (n, err)
 //@   let wk = sink(w)
 //@   let l0 = old(Wlen(wk))
+//@   ensures all(k, 0, l0, Wout(wk, k) == old(Wout(wk, k)))                         [@frame]
 //@   ensures Wlen(wk) == l0 + n && 0 <= n && n <= 4                                 [@count]
 //@   ensures err == nil ==> n == 4                                                  [@count]
 //@   ensures all(k, 0, 4, k < n ==> Wout(wk, l0+k) == be32_byte(uint32(v), k))                       [@value]
@@ -145,6 +154,7 @@ package packet
 //@ func (Long).WriteTo(v; w) (n, err)
 //@   let wk = sink(w)
 //@   let l0 = old(Wlen(wk))
+//@   ensures all(k, 0, l0, Wout(wk, k) == old(Wout(wk, k)))                         [@frame]
 //@   ensures Wlen(wk) == l0 + n && 0 <= n && n <= 8                                 [@count]
 //@   ensures err == nil ==> n == 8                                                  [@count]
 //@   ensures all(k, 0, 8, k < n ==> Wout(wk, l0+k) == be64_byte(uint64(v), k))                       [@value]
@@ -164,6 +174,7 @@ package packet
 //@ func (Float).WriteTo(v; w) (n, err)
 //@   let wk = sink(w)
 //@   let l0 = old(Wlen(wk))
+//@   ensures all(k, 0, l0, Wout(wk, k) == old(Wout(wk, k)))                         [@frame]
 //@   ensures Wlen(wk) == l0 + n && 0 <= n && n <= 4                                 [@count]
 //@   ensures err == nil ==> n == 4                                                  [@count]
 //@   ensures all(k, 0, 4, k < n ==> Wout(wk, l0+k) == be32_byte(bits(v), k))                       [@value]
@@ -183,6 +194,7 @@ package packet
 //@ func (Double).WriteTo(v; w) (n, err)
 //@   let wk = sink(w)
 //@   let l0 = old(Wlen(wk))
+//@   ensures all(k, 0, l0, Wout(wk, k) == old(Wout(wk, k)))                         [@frame]
 //@   ensures Wlen(wk) == l0 + n && 0 <= n && n <= 8                                 [@count]
 //@   ensures err == nil ==> n == 8                                                  [@count]
 //@   ensures all(k, 0, 8, k < n ==> Wout(wk, l0+k) == be64_byte(bits(v), k))                       [@value]
@@ -212,6 +224,7 @@ package packet
 //@ func (Boolean).WriteTo(v; w) (n, err)
 //@   let wk = sink(w)
 //@   let l0 = old(Wlen(wk))
+//@   ensures all(k, 0, l0, Wout(wk, k) == old(Wout(wk, k)))                         [@frame]
 //@   ensures Wlen(wk) == l0 + n && 0 <= n && n <= 1                                  [@count]
 //@   ensures err == nil ==> n == 1                                                   [@count]
 //@   ensures n == 1 ==> Wout(wk, l0) == ite(v, uint8(1), uint8(0))                                 [@value]
@@ -231,6 +244,7 @@ package packet
 //@ func (Byte).WriteTo(v; w) (n, err)
 //@   let wk = sink(w)
 //@   let l0 = old(Wlen(wk))
+//@   ensures all(k, 0, l0, Wout(wk, k) == old(Wout(wk, k)))                         [@frame]
 //@   ensures Wlen(wk) == l0 + n && 0 <= n && n <= 1                                  [@count]
 //@   ensures err == nil ==> n == 1                                                   [@count]
 //@   ensures n == 1 ==> Wout(wk, l0) == uint8(v)                                     [@value]
@@ -250,6 +264,7 @@ package packet
 //@ func (UnsignedByte).WriteTo(v; w) (n, err)
 //@   let wk = sink(w)
 //@   let l0 = old(Wlen(wk))
+//@   ensures all(k, 0, l0, Wout(wk, k) == old(Wout(wk, k)))                         [@frame]
 //@   ensures Wlen(wk) == l0 + n && 0 <= n && n <= 1                                  [@count]
 //@   ensures err == nil ==> n == 1                                                   [@count]
 //@   ensures n == 1 ==> Wout(wk, l0) == uint8(v)                                     [@value]
